@@ -10,7 +10,7 @@ def component(ctx):
     q = ctx.quick
     for i, (limit, rotate, life) in enumerate([(2, "TRUE", 4)] if q else [(2, "TRUE", 4), (3, "FALSE", 4), (2, "TRUE", 0)]):
         cfg = ctx.make_cfg("MC_LocalIds.cfg", "MC_LocalIds_run%d.cfg" % i,
-                           {"Limit": limit, "Rotate": rotate, "Lifetime": life, "MaxTime": 5 if q else 6, "MaxPn": 2 if q else 3})
+                           {"Limit": limit, "Rotate": rotate, "Lifetime": life, "MaxTime": 5 if (q or limit > 2) else 6, "MaxPn": 2 if q else 3})
         ctx.mc("MC_LocalIds", cfg=cfg, workers=8, timeout=3000,
                expect_actions=["Register", "Transmit", "Ack", "Lose", "PeerRetire", "HandshakeConfirmed", "Timeout"] if life else None)
     hb = ctx.build("h-quic")
@@ -32,6 +32,30 @@ def component(ctx):
     ctx.cov["stages"].append({"stage": "record", "what": "LocalIdRegistry random call sequences", **{x: v for x, v in r.items() if not x.startswith("_")}})
     for i, p in enumerate(C18.split(tf, 30000)):
         ctx.trace("Trace_LocalIds", p, runs=r["runs"], label="cidreg-random-%d" % i, timeout=1500)
+    # receiver side: PeerIds machine (MC), its behaviours replayed on the real PeerIdRegistry, random frame sequences of an
+    # honest (late / repeated copies, growing retire_prior_to) and of a misbehaving issuer, validated by Trace_PeerIds
+    for i, (rot, ms, mp, dis) in enumerate([("TRUE", 5, 3, "FALSE"), ("TRUE", 3, 1, "TRUE")] if q else
+                                           [("TRUE", 6, 4, "FALSE"), ("FALSE", 6, 4, "FALSE"), ("TRUE", 3, 2, "TRUE"), ("FALSE", 3, 2, "TRUE")]):
+        cfg = ctx.make_cfg("MC_PeerIds.cfg", "MC_PeerIds_run%d.cfg" % i, {"Rotate": rot, "MaxSeq": ms, "MaxPn": mp, "Dishonest": dis})
+        ctx.mc("MC_PeerIds", cfg=cfg, workers=8, timeout=3000, expect_actions=["Consume", "Transmit", "Ack", "Lose"])
+    k = 0
+    for rot, dis in [("TRUE", "FALSE"), ("FALSE", "TRUE")] if q else [("TRUE", "FALSE"), ("FALSE", "FALSE"), ("TRUE", "TRUE"), ("FALSE", "TRUE")]:
+        cfg = ctx.make_cfg("Gen_PeerIds.cfg", "Gen_PeerIds_run%d.cfg" % k, {"Rotate": rot, "Dishonest": dis})
+        beh, n = ctx.gen("Gen_PeerIds", "gen_peerids_%d.txt" % k, cfg=cfg, simulate=(40 if q else 400, 31))
+        tf = os.path.join(ctx.out, "peerreg-gen-%d.ndjson" % k)
+        r = ctx.harness(hb, ["peerreg-run", beh, tf])
+        os.remove(beh)
+        ctx.cov["stages"].append({"stage": "replay", "what": "PeerIds behaviours on the real PeerIdRegistry", **{x: v for x, v in r.items() if not x.startswith("_")}})
+        ctx.count(r["steps"])
+        for i, p in enumerate(C18.split(tf, 30000)):
+            ctx.trace("Trace_PeerIds", p, runs=r["runs"], label="peerreg-gen-%d-%d" % (k, i), timeout=1500)
+        k += 1
+    tf = os.path.join(ctx.out, "peerreg-random.ndjson")
+    r = ctx.harness(hb, ["peerreg-run", "random:%d:%d" % (600 if q else 8000, ctx.seed), tf])
+    ctx.cov["stages"].append({"stage": "record", "what": "PeerIdRegistry random frame sequences", **{x: v for x, v in r.items() if not x.startswith("_")}})
+    for i, p in enumerate(C18.split(tf, 30000)):
+        ctx.trace("Trace_PeerIds", p, runs=r["runs"], label="peerreg-random-%d" % i, timeout=1500)
+    ctx.assume("component level (receiver side): a NEW_CONNECTION_ID frame may be refused as inconsistent only if it conflicts with a frame accepted before (RFC 9000 19.15 makes the refusal itself optional), with CONNECTION_ID_LIMIT_ERROR only if more than 3 ids would be usable (and then it must be), for the implementation's backlog limit only with more than 6 unacknowledged retirements; RETIRE_CONNECTION_ID names only ids that were received and are no longer usable, and with room in the packet everything below the largest retire_prior_to is retired")
     ctx.assume("component level (issuer side): one tick of the LocalIds machine = 15 s, RTT 5 s when its behaviours are replayed; every id has the generator's fixed lifetime (as connection::id::Generator provides), the peer is honest except for the two refused RETIRE forms; an id stays routable until the peer retired it or its announced lifetime ran out")
 
 
